@@ -66,7 +66,7 @@ def run_newton(c):
 # ---------------------------------------------------------------------------------------------
 # toy source terms: analytic generation / dissipation / tail stress so that the REAL driver
 # (_u10_from_bulk_rate_point, _u10_from_spectra_point, _u10_from_spectra) runs on a balance the Coq model
-# can evaluate itself.   G = E * amp * u^2 * shape(u) * (1 + q cos(dir - d0))
+# can evaluate itself.   G = E * amp * h(u) * (1 + q cos(dir - d0))
 # ---------------------------------------------------------------------------------------------
 @numba.njit
 def toy_wind(variance_density, wind, depth, roughness_length, spectral_grid, parameters, wind_source=None):
@@ -75,16 +75,16 @@ def toy_wind(variance_density, wind, depth, roughness_length, spectral_grid, par
     a = parameters["toy_a"]
     b = parameters["toy_b"]
     if kind == 0.0:
-        s = a
+        hh = u * u * a
     elif kind == 1.0:
-        s = a + b * np.sin(u)
+        hh = u * u * (a + b * np.sin(u))
     elif kind == 2.0:
-        s = min(max(a / (u * u), b / 10), b)
+        hh = min(max(u * u * a, b), 16 * b)
     elif kind == 3.0:
-        s = a / (1 + b * u)
+        hh = u * u * a / (1 + b * u)
     else:
-        s = a
-    h = parameters["toy_amp"] * u * u * s * (1 + parameters["toy_q"] * np.cos((wind[1] - parameters["toy_d0"]) * np.pi / 180))
+        hh = u * u * a
+    h = parameters["toy_amp"] * hh * (1 + parameters["toy_q"] * np.cos((wind[1] - parameters["toy_d0"]) * np.pi / 180))
     return variance_density * h
 
 
